@@ -45,10 +45,14 @@ fn place_json<'tcx>(cx: &mut Ctx<'tcx>, body: &Body<'tcx>, p: &Place<'tcx>) -> J
                     }
                     _ => format!("{}", f.index()),
                 };
-                J::obj()
+                let mut fo = J::obj()
                     .with("f", J::s(name))
                     .with("i", J::Num(f.index() as i128))
-                    .with("ty", J::s(ty_str(tcx, fty)))
+                    .with("ty", J::s(ty_str(tcx, fty)));
+                if let ty::Adt(adt, _) = bty.ty.kind() {
+                    fo.set("of", J::s(def_path(tcx, adt.did())));
+                }
+                fo
             }
             PlaceElem::Index(l) => J::obj().with("idx", J::Num(l.index() as i128)),
             PlaceElem::ConstantIndex {
